@@ -55,7 +55,15 @@ func c04Input(w *workspace, variant int, r *rand.Rand) {
 	w.writeCSVBook(sub, bookSpec{Name: "Alpha", Sheets: []sheetSpec{a}})
 	w.writeCSVBook(sub, bookSpec{Name: "Beta", Sheets: []sheetSpec{b}})
 	w.writeCSVBook(sub, bookSpec{Name: "Shared", Sheets: []sheetSpec{{Name: "Zone", Rows: [][]string{{"ID", "Name", "Tags"}, {"t", "t", "t"}, {"n", "n", "n"}, {"77", "shared", "7"}}}}, NoMeta: true})
-	if variant&1 == 1 {
+	// a sheet with AdjacentKey: blank key cells are filled from the row above (pooled row cells carry that mark)
+	adjRows := [][]string{{"ID", "PropID", "Value"}, {"map<uint32, Adj>", "map<int32, Prop>", "int32"}, {"id", "prop", "value"},
+		{"1", "1", "10"}, {"", "2", "20"}, {"", "3", "30"}, {"2", "1", "40"}, {"", "2", "50"}, {"", "3", "60"}, {"3", "1", "70"}}
+	if variant&1 == 1 && variant&16 == 16 {
+		// the single defect sits in this sheet, below auto-populated rows
+		adjRows = append(adjRows, []string{"", "2", "abc"})
+	}
+	w.writeCSVBook(sub, bookSpec{Name: "Adj", Sheets: []sheetSpec{{Name: "AdjConf", Rows: adjRows, Meta: map[string]string{"AdjacentKey": "true"}}}})
+	if variant&1 == 1 && variant&16 == 0 {
 		// a single defect: one bad cell in one secondary merger book
 		w.writeCSVBook(sub, bookSpec{Name: "Zone3", Sheets: []sheetSpec{{Name: "ZoneConf", Rows: [][]string{{"ID", "Name"}, {"t", "t"}, {"n", "n"}, {"30", "a"}, {"bad!", "b"}}}}, NoMeta: true})
 	}
@@ -111,7 +119,7 @@ func init() {
 			if i%3 == 2 {
 				named = "1"
 			}
-			emit("c04.det", strconv.Itoa(i%16), named, strconv.Itoa(8+r.Intn(5)))
+			emit("c04.det", strconv.Itoa(i%32), named, strconv.Itoa(8+r.Intn(5)))
 		}
 	})
 	regImpl("c04.det", func(a []string) string {
